@@ -235,4 +235,64 @@ example : (runG (Sys.init 1000 1000) goodRun).map (fun s =>
     s.a.inb.isEmpty && s.a.outb.isEmpty && s.b.inb.isEmpty && s.b.outb.isEmpty &&
     s.a.valueToSelf == 750 && s.b.valueToSelf == 1250) = some true := by decide
 
+/-! ### 6. send limits: the sender's statistics filter covers the peer's (C01) -/
+
+/-- `get_next_commitment_htlcs`, sender against peer, in every reachable state of the guarded protocol.
+    A node `x` sizing its next HTLC on the peer `y`'s next commitment uses
+    `OutState.inNextStats · false true` for the HTLCs it offered and `InState.inNextStats · false ·` for those it
+    received; `y`, validating the `update_add_htlc` on that same (its own) commitment, uses
+    `InState.inNextStats · true ·` resp. `OutState.inNextStats · true false`.  Every HTLC `y` counts, `x`
+    counts too, with the same id and amount (`x` never under-counts):
+      * for HTLCs offered by `x` — provided no revoke_and_ack of `x` is undelivered (on the wire, held back
+        or owed: `Msg.raa ∉ full x→y stream`).  While one is, `x` may already have dropped a removed HTLC
+        (AwaitingRemoteRevokeToRemove) that `y` still holds as LocalRemoved; `y` drops it when it processes
+        that revoke_and_ack, which FIFO puts before any later `update_add_htlc` of `x` (see the example below);
+      * for HTLCs offered by `y` — provided `x`'s removal message of that HTLC is not undelivered.
+    Stated for `x = a` (first two clauses) and `x = b` (last two).  Partial: guarded runs, and the two
+    in-flight restrictions.  The table facts are `good_stats_offered` / `good_stats_received` (`decide` over
+    the 106 joint configurations): flipping an arm of either generated `inNextStats` breaks them. -/
+theorem next_stats_sender_covers_peer_partial (va vb : Nat) (evs : List Ev) (s : Sys)
+    (h : runG (Sys.init va vb) evs = some s) :
+    (Msg.raa ∉ s.fullAB → ∀ y ∈ s.b.inb, ∀ u, y.st.inNextStats true u = true →
+      ∃ x ∈ s.a.outb, x.id = y.id ∧ x.amt = y.amt ∧ x.st.inNextStats false true = true) ∧
+    (∀ y ∈ s.b.outb, Msg.fulfill y.id ∉ s.fullAB → Msg.fail y.id ∉ s.fullAB → y.st.inNextStats true false = true →
+      ∀ u, ∃ x ∈ s.a.inb, x.id = y.id ∧ x.amt = y.amt ∧ x.st.inNextStats false u = true) ∧
+    (Msg.raa ∉ s.fullBA → ∀ y ∈ s.a.inb, ∀ u, y.st.inNextStats true u = true →
+      ∃ x ∈ s.b.outb, x.id = y.id ∧ x.amt = y.amt ∧ x.st.inNextStats false true = true) ∧
+    (∀ y ∈ s.a.outb, Msg.fulfill y.id ∉ s.fullBA → Msg.fail y.id ∉ s.fullBA → y.st.inNextStats true false = true →
+      ∀ u, ∃ x ∈ s.b.inb, x.id = y.id ∧ x.amt = y.amt ∧ x.st.inNextStats false u = true) := by
+  have inv := Inv.run h
+  refine ⟨fun hr => stats_offered inv.good inv.base.ok inv.base'.ok inv.amt hr,
+    stats_received inv.good' inv.base.ok inv.base'.ok inv.amt',
+    fun hr => stats_offered (s := s.swap) inv.good' inv.base'.ok inv.base.ok inv.amt' hr,
+    stats_received (s := s.swap) (by simpa using inv.good) inv.base'.ok inv.base.ok (by simpa using inv.amt)⟩
+
+-- non-vacuity (27 events into `goodRun`): no revoke_and_ack of `a` pending, `b` still counts both HTLCs it is
+-- removing (LocalRemoved), `a` counts them as RemoteRemoved on `b`'s commitment — the `(RemoteRemoved, false)` arm
+example : (runG (Sys.init 1000 1000) (goodRun.take 27)).map (fun s =>
+    !s.fullAB.contains .raa && s.b.inb.length == 2 && s.b.inb.all (fun y => y.st.inNextStats true false) &&
+    s.a.outb.all (fun x => x.st.inNextStats false true) &&
+    s.a.outb.all (fun x => x.st == .remoteRemoved true || x.st == .remoteRemoved false)) = some true := by decide
+
+-- the restriction is needed: two events later `a`'s revoke_and_ack is on the wire, `a` no longer counts the two
+-- HTLCs, `b` still does until it processes that revoke_and_ack
+example : (runG (Sys.init 1000 1000) (goodRun.take 29)).map (fun s =>
+    s.fullAB.contains .raa && s.b.inb.all (fun y => y.st.inNextStats true false) && s.b.inb.length == 2 &&
+    s.a.outb.all (fun x => !x.st.inNextStats false true)) = some true := by decide
+
+/-- Companion (peer side): when `y` is about to verify a commitment_signed of `x`, every HTLC offered by `x`
+    that `x` signed into it is held by `y` and counted by `y`'s own-commitment filter (local = true) — `y`
+    never validates against fewer HTLCs than the commitment it is about to accept contains.  Per joint
+    configuration (`cfgA s id` of any guarded-reachable `s` is good: `joint_invariant_partial`). -/
+theorem next_stats_holder_counts_signed (c : Cfg) (hc : good c = true) (hh : c.fwd.head? = some .cs)
+    (ho : inclT c.o = true) : ∃ i, c.i = some i ∧ ∀ u, i.inNextStats true u = true := by
+  have f := good_stats_holder c hc
+  rw [hh, ho] at f
+  simp only [beq_self_eq_true, Bool.not_true, Bool.false_or] at f
+  cases hi : c.i with
+  | none => rw [hi] at f; cases f
+  | some i => rw [hi] at f; exact ⟨i, rfl, fun u => by rw [in_stats_flag i true u false]; exact f⟩
+
+example : good ⟨some .committed, some (.localRemoved true), [.cs], [.rem true, .cs], true, true⟩ = true := by decide
+
 end Ldk.ChanProto
